@@ -223,3 +223,19 @@ def ambiguous_concat_cnf(rng):
             R.append((A, (V(rng.choice([v for v in vs if v != 'S'])), V(rng.choice([v for v in vs if v != 'S'])))))
     used_t = sorted({x for (_, r) in R for (k, x) in r if k == 'T'})
     return cf.make(vs, used_t, R, 'S')
+
+
+def ambiguous_long_rules(rng):
+    """non-CNF grammar with long rules whose TAILS spell the same string when the symbol names are concatenated:
+    S -> x A B c | y AB c  (tails A.B.c and AB.c)"""
+    splits = [(('A', 'B'), ('AB',)), (('A', 'BC'), ('AB', 'C')), (('X', 'XX'), ('XX', 'X')), (('A', 'A', 'B'), ('AA', 'B'))]
+    (t1, t2) = rng.choice(splits)
+    vs = sorted(set(t1) | set(t2) | {'S'})
+    R = [('S', (T('x'),) + tuple(V(v) for v in t1) + (T('a'),)), ('S', (T('y'),) + tuple(V(v) for v in t2) + (T('a'),))]
+    if rng.random() < 0.5:
+        R.reverse()
+    ts = 'abx'
+    for i, A in enumerate([v for v in vs if v != 'S']):
+        R.append((A, (T(ts[i % len(ts)]),)))
+    used_t = sorted({x for (_, r) in R for (k, x) in r if k == 'T'})
+    return cf.make(vs, used_t, R, 'S')
